@@ -367,7 +367,7 @@ func genHdrCfg(r *rng, unit bool, response bool) []hCfg {
 				v.prefix = r.pick([]string{"Bearer ", "p:", "Basic "})
 			}
 			if r.intn(4) == 0 {
-				v.hasPw, v.pw = true, r.pick([]string{"pw", "p:w", "s3cr3t!"})
+				v.hasPw, v.pw = true, r.pick([]string{"pw", "p:w", "s3cr3t!", "pa?sword~1", "???>>>~~~", "pässwörd"})
 			}
 			c.vals = append(c.vals, v)
 		}
@@ -376,7 +376,8 @@ func genHdrCfg(r *rng, unit bool, response bool) []hCfg {
 	return cfg
 }
 
-var hdrFieldVals = []string{"", "alice@example.com", "alice", "a,b", "tok-123", "x y", "Basic Zm9v", "ü"}
+// (names and addresses outside ASCII, and bytes whose base64 needs the characters '+' and '/': the two base64 alphabets differ there)
+var hdrFieldVals = []string{"", "alice@example.com", "alice", "a,b", "tok-123", "x y", "Basic Zm9v", "ü", "zoë", "françois.müller@example.com", "o?>", "~~~???>>>", "a?b"}
 
 func genHdrSess(c *suiteCtx, r *rng) *hSess {
 	ts := func() *string {
@@ -519,7 +520,8 @@ func init() {
 		hdrAlphaMerge(c)
 		hdrAlphaFile(c)
 		hdrE2E(c)
-		c.close([]string{"alpha:merge", "canon:valid", "canon:invalid", "unit:req", "unit:resp", "wire:req", "legacy:flags",
+		hdrAuthOnlyGroups(c)
+		c.close([]string{"hdr:authonly-allowed-groups", "hdr:htpasswd-groups-later", "alpha:merge", "canon:valid", "canon:invalid", "unit:req", "unit:resp", "wire:req", "legacy:flags",
 			"sess:nil", "sess:cookie-like", "sess:bearer-like", "sess:basic-like", "sess:random",
 			"monitor:spoof-stripped", "monitor:preserved-client-kept", "monitor:nosession-empty", "cfg:shared-canonical-key",
 			"e2e:cookie", "e2e:bearer", "e2e:basic", "e2e:bypass-nosession", "e2e:bypass-session", "e2e:authonly-202",
@@ -1255,5 +1257,55 @@ func hdrE2E(c *suiteCtx) {
 			e2.close()
 		}
 		e.close()
+	}
+}
+
+// hdrAuthOnlyGroups: the auth-only endpoint asked with constraints (?allowed_groups=…) answers with the identity headers of the
+// SESSION — all its groups, in their order — whichever of them satisfied the constraint; and judging a request leaves the next
+// request's headers alone (htpasswd sessions share the configured group list).
+func hdrAuthOnlyGroups(c *suiteCtx) {
+	inj := []options.Header{claimHeader("X-Auth-Request-Groups", "groups"), claimHeader("X-Auth-Request-User", "user")}
+	e, err := newEnv(c, proxyCfg{InjectResponse: inj, InjectRequest: defaultInject(), Htpasswd: map[string]string{"bob": "pw", "carol": "pw2"}, HtpasswdGroups: []string{"staff", "qa", "admin"}})
+	if err != nil {
+		c.violation("HARNESS", "env: "+err.Error(), nil)
+		return
+	}
+	defer e.close()
+	u := defaultUser()
+	u.Groups = []interface{}{"dev", "qa", "admin", "night-shift"}
+	want := "dev,qa,admin,night-shift"
+	ck := e.issueSessionCookie(e.sessionFor(u, 30*time.Second))
+	for _, q := range []string{"allowed_groups=admin", "allowed_groups=night-shift,qa", "allowed_groups=nobody,admin,dev", "allowed_groups=qa&allowed_groups=admin", "allowed_groups=dev", ""} {
+		v := e.do(reqSpec{Target: "/oauth2/auth?" + q, Cookie: ck})
+		got := strings.Join(v.Header.Values("X-Auth-Request-Groups"), ",")
+		c.casen("hdr|authonly-groups|"+q, fmt.Sprintf("%d %s", v.Status, got))
+		c.count("hdr:authonly-allowed-groups")
+		if v.Status == 202 && got != want {
+			c.violation("C07", "the auth-only endpoint, asked with a group constraint the session satisfies, answers with other groups than the session's", map[string]interface{}{"query": q, "session_groups": want, "x_auth_request_groups": got})
+		}
+		// ... and the same session afterwards, on a proxied request
+		pv := e.do(reqSpec{Target: "/app/x", Cookie: ck})
+		for _, h := range pv.Hits {
+			if g := strings.Join(h.Header.Values("X-Forwarded-Groups"), ","); g != want {
+				c.violation("C07", "after an auth-only request with a group constraint, the same session is forwarded with other groups", map[string]interface{}{"query_before": q, "session_groups": want, "x_forwarded_groups": g})
+			}
+		}
+	}
+	basic := func(user, pw string) http.Header {
+		return http.Header{"Authorization": {"Basic " + base64.StdEncoding.EncodeToString([]byte(user+":"+pw))}}
+	}
+	for _, q := range []string{"allowed_groups=admin", "allowed_groups=qa,admin", "allowed_groups=admin&allowed_groups=staff"} {
+		e.do(reqSpec{Target: "/oauth2/auth?" + q, Header: basic("bob", "pw")})
+		pv := e.do(reqSpec{Target: "/app/later", Header: basic("carol", "pw2")})
+		c.casen("hdr|htpasswd-groups-later|"+q, fmt.Sprint(pv.Status))
+		c.count("hdr:htpasswd-groups-later")
+		for _, h := range pv.Hits {
+			if g := strings.Join(h.Header.Values("X-Forwarded-Groups"), ","); g != "staff,qa,admin" {
+				c.violation("C07", "after ANOTHER user's auth-only request with a group constraint, a basic-auth user is forwarded with other groups than the configured htpasswd-user-group list", map[string]interface{}{"query_of_the_earlier_request": q, "configured": "staff,qa,admin", "x_forwarded_groups": g})
+			}
+		}
+		if len(pv.Hits) == 0 {
+			c.violation("HARNESS", "basic-auth request not served", map[string]interface{}{"status": pv.Status})
+		}
 	}
 }
